@@ -155,10 +155,8 @@ class Engine:
         self.builtin_dir = os.path.join(os.path.dirname(geometry_tools.__file__),
                                         "automata", "builtin")
         simfs.DISK.install(self.builtin_dir)
-        self.tables = simfs.builtin_tables(self.builtin_dir)
+        self.tables = simfs.builtin_tables(self.builtin_dir) if os.path.isdir(self.builtin_dir) else {}
         self.builtin_names = sorted(n for n, (t, _) in self.tables.items() if t is not None)
-        self._defaults = (dict(fsa.FSA.__init__.__defaults__[0]),
-                          list(fsa.FSA.__init__.__defaults__[1]))
         from .core import library_guard
         self.guard = library_guard()
 
@@ -222,22 +220,8 @@ class Engine:
     def _isolate(self):
         """Process-global state a run could have changed (Appendix B)."""
         fsa = self.fsa
-        d = fsa.FSA.__init__.__defaults__
-        if d[0] != self._defaults[0] or d[1] != self._defaults[1] or d[2] is not True:
-            fsa.FSA.__init__.__defaults__ = ({}, [], True)
-            self.dirty_defaults = True
         simfs.DISK.reset()
         self.guard.restore()
-        # memoised functions in the automata modules would make a run depend on its predecessors
-        from geometry_tools.automata import gap_parse, kbmag_utils
-        for mod in (fsa, gap_parse, kbmag_utils):
-            for name, obj in list(vars(mod).items()):
-                cc = getattr(obj, "cache_clear", None)
-                if callable(cc):
-                    try:
-                        cc()
-                    except Exception:
-                        pass
 
     # ------------------------------------------------------------------ helpers
     def universe(self, cfg):
@@ -271,10 +255,11 @@ class Engine:
         if st is None:
             chunks = [rng.choice([1, 3, 16, 64, 500, 4096])]
             bufsize = rng.choice([1, 16, 128, 8192])
-            if rng.random() < 0.6:
+            if rng.random() < 0.6 and self.builtin_names:
                 name = rng.choice(self.builtin_names)
-                if self.tables[name][1] > 2500 and rng.random() < 0.8:
-                    name = rng.choice([x for x in self.builtin_names if self.tables[x][1] <= 2500])
+                small = [x for x in self.builtin_names if self.tables[x][1] <= 2500]
+                if self.tables[name][1] > 2500 and rng.random() < 0.8 and small:
+                    name = rng.choice(small)
                 size = self.tables[name][1]
                 if size > 3000 and chunks[0] < 16:
                     chunks = [64]
@@ -502,10 +487,11 @@ class Engine:
 
     def _gen_io(self, rng, world):
         cfg = world.cfg
-        if rng.random() < cfg["builtin_rate"]:
+        if rng.random() < cfg["builtin_rate"] and self.builtin_names:
             name = rng.choice(self.builtin_names)
-            if self.tables[name][0]["n"] > 60 and rng.random() < 0.8:
-                name = rng.choice(["f2.wa", "f2.geowa", "cox334.wa", "pentagon_ra.wa", "cone_torus.wa"])
+            small = [x for x in self.builtin_names if self.tables[x][0]["n"] <= 60]
+            if self.tables[name][0]["n"] > 60 and rng.random() < 0.8 and small:
+                name = rng.choice(small)
             size = self.tables[name][1]
             return {"op": "load_builtin", "new": self._new_id(world), "name": name,
                     "plan": self._gen_plan(rng, cfg, size)}
